@@ -70,10 +70,7 @@ VALUE_CODES = (1, 2, 3)
 
 # ------------------------------------------------------------------ adapter
 def _enum(cls, v):
-    try:
-        return cls(v)
-    except ValueError:
-        return v
+    return core.enum_or_int(cls, v)
 
 
 def _resp(l):
